@@ -47,6 +47,9 @@ pub struct SpecCfg {
     pub median_time_block_count: Option<usize>,
     pub initial_primary_epoch_reward: Option<u64>,
     pub secondary_epoch_reward: Option<u64>,
+    /// put the always_success binary into the NervosDAO system-cell slot: the node-level DAO
+    /// accounting (keyed by the slot's type hash) is exercised without the script's 180-epoch lock
+    pub fake_dao: bool,
 }
 
 impl Default for SpecCfg {
@@ -66,6 +69,7 @@ impl Default for SpecCfg {
             median_time_block_count: None,
             initial_primary_epoch_reward: None,
             secondary_epoch_reward: None,
+            fake_dao: false,
         }
     }
 }
@@ -125,12 +129,94 @@ pub fn build_env(cfg: &SpecCfg) -> Env {
         spec.params.secondary_epoch_reward = Some(Capacity::shannons(v));
     }
     let mut consensus = spec.build_consensus().expect("build consensus");
+    if cfg.fake_dao {
+        consensus = with_fake_dao(&spec, consensus);
+    }
     consensus.tx_proposal_window =
         ckb_chain_spec::consensus::ProposalWindow(cfg.proposal_window.0, cfg.proposal_window.1);
     if let Some(m) = cfg.median_time_block_count {
         consensus.median_time_block_count = m;
     }
     env_of(Arc::new(consensus))
+}
+
+/// Rebuild the genesis with the always_success binary in the NervosDAO system-cell slot (the
+/// chain-spec loader insists on the real binary's hash).  The cell keeps its type-id script, so
+/// `dao_type_hash` is unchanged; the genesis DAO field is recomputed for the new cell data.
+fn with_fake_dao(spec: &ChainSpec, real: Consensus) -> Consensus {
+    use ckb_chain_spec::consensus::ConsensusBuilder;
+    use ckb_types::core::EpochNumberWithFraction;
+    let g = real.genesis_block().clone();
+    let as_bin = std::fs::read(harness_dir().join("specs/cells/always_success")).unwrap();
+    let tx0 = g.transactions()[0].clone();
+    let mut datas: Vec<packed::Bytes> = tx0.outputs_data().into_iter().collect();
+    datas[ckb_chain_spec::OUTPUT_INDEX_DAO as usize] = ckb_types::bytes::Bytes::from(as_bin).pack();
+    let new_tx0 = tx0.as_advanced_builder().set_outputs_data(datas).build();
+    // later genesis transactions (dep groups) refer to the cellbase by hash: re-point them
+    let old_hash = tx0.hash();
+    let new_hash = new_tx0.hash();
+    let mut txs = vec![new_tx0];
+    for tx in g.transactions().into_iter().skip(1) {
+        let inputs: Vec<packed::CellInput> = tx
+            .inputs()
+            .into_iter()
+            .map(|i| {
+                if i.previous_output().tx_hash() == old_hash {
+                    let op = i.previous_output().as_builder().tx_hash(new_hash.clone()).build();
+                    i.as_builder().previous_output(op).build()
+                } else {
+                    i
+                }
+            })
+            .collect();
+        let datas: Vec<packed::Bytes> = tx
+            .outputs_data()
+            .into_iter()
+            .map(|d| {
+                let mut raw = d.raw_data().to_vec();
+                let (o, n) = (old_hash.as_slice(), new_hash.as_slice());
+                let mut i = 0;
+                while i + 32 <= raw.len() {
+                    if &raw[i..i + 32] == o {
+                        raw[i..i + 32].copy_from_slice(n);
+                        i += 32;
+                    } else {
+                        i += 1;
+                    }
+                }
+                ckb_types::bytes::Bytes::from(raw).pack()
+            })
+            .collect();
+        txs.push(tx.as_advanced_builder().set_inputs(inputs).set_outputs_data(datas).build());
+    }
+    let len = spec.params.genesis_epoch_length();
+    let dao = ckb_dao_utils::genesis_dao_data_with_satoshi_gift(
+        txs.iter().collect(),
+        &spec.genesis.satoshi_gift.satoshi_pubkey_hash,
+        spec.genesis.satoshi_gift.satoshi_cell_occupied_ratio,
+        ckb_chain_spec::calculate_block_reward(spec.params.initial_primary_epoch_reward(), len),
+        ckb_chain_spec::calculate_block_reward(spec.params.secondary_epoch_reward(), len),
+    )
+    .expect("genesis dao");
+    let block = g.as_advanced_builder().set_transactions(txs).dao(dao).build();
+    ConsensusBuilder::new(block, real.genesis_epoch_ext().clone())
+        .id(spec.name.clone())
+        .cellbase_maturity(EpochNumberWithFraction::from_full_value(spec.params.cellbase_maturity()))
+        .secondary_epoch_reward(spec.params.secondary_epoch_reward())
+        .max_block_cycles(spec.params.max_block_cycles())
+        .max_block_bytes(spec.params.max_block_bytes())
+        .pow(spec.pow.clone())
+        .satoshi_pubkey_hash(spec.genesis.satoshi_gift.satoshi_pubkey_hash.clone())
+        .satoshi_cell_occupied_ratio(spec.genesis.satoshi_gift.satoshi_cell_occupied_ratio)
+        .primary_epoch_reward_halving_interval(spec.params.primary_epoch_reward_halving_interval())
+        .initial_primary_epoch_reward(spec.params.initial_primary_epoch_reward())
+        .epoch_duration_target(spec.params.epoch_duration_target())
+        .permanent_difficulty_in_dummy(spec.params.permanent_difficulty_in_dummy())
+        .max_block_proposals_limit(spec.params.max_block_proposals_limit())
+        .orphan_rate_target(spec.params.orphan_rate_target())
+        .starting_block_limiting_dao_withdrawing_lock(spec.params.starting_block_limiting_dao_withdrawing_lock())
+        .hardfork_switch(real.hardfork_switch.clone())
+        .build()
 }
 
 pub fn env_of(consensus: Arc<Consensus>) -> Env {
